@@ -129,7 +129,7 @@ func init() {
 				}
 				return false
 			},
-			Rule: "two clients issue one update each against the same Redis-backed structure under a random schedule of >=4 turns at Redis-command granularity (go-redis hook); results and final state diffed against the interleaving model", Quick: 120, Thorough: 2500})
+			Rule: "two clients issue one update each against the same Redis-backed structure under a random schedule of >=4 turns at Redis-command granularity (go-redis hook); results and final state diffed against the interleaving model", Quick: 240, Thorough: 2500})
 	}
 	registry["C19"] = []Suite{
 		{Name: "shared-db", NewMachine: newMultiMachine, Gen: genC19, OMonitors: []OMonitor{monitorC19},
@@ -140,7 +140,7 @@ func init() {
 			Rule: "2-8 live Redis-backed structures of mixed kinds in one database, interleaved histories incl. re-attachment and import under new keys; each structure's answers diffed against its model run alone", Quick: 60, Thorough: 1500},
 	}
 	registry["C05"] = []Suite{
-		{Name: "hll-mem", NewMachine: func() Machine { return &withCodec{genericMachine: &hllMem{}} }, Gen: genC05,
+		{Name: "hll-mem", NewMachine: func() Machine { return &withCodec{genericMachine: &hllMem{}} }, Gen: bigRegs(genC05),
 			Monitors: []Monitor{monitorHLL("mem", "C05")}, OpName: hllOpName,
 			Nontrivial: func(r *RunResult) bool { return countOps(r, hlUpdate) >= 1 },
 			Rule:       ">=1 update then counts under all four flag combinations; distinct by SHA-1",
